@@ -638,6 +638,72 @@ theorem canonical_fabricsAclAdd {fabrics fabrics' : List Fabric} {fab n : Nat} {
         · simp only [List.mem_singleton] at he'; subst he'; exact hp
 
 
+/-! ## no deny rule: adding an entry never revokes access -/
+
+theorem fabricsUpdate_keeps (fabrics : List Fabric) (i : Nat) (g : Fabric → Fabric) :
+    ∀ f ∈ fabrics, f ∈ fabricsUpdate fabrics i g ∨ (f.fabIdx = i ∧ g f ∈ fabricsUpdate fabrics i g) := by
+  induction fabrics with
+  | nil => intro f hf; cases hf
+  | cons x xs ih =>
+    intro f hf
+    unfold fabricsUpdate
+    by_cases hx : x.fabIdx = i
+    · have : (x.fabIdx == i) = true := by simp [hx]
+      simp only [this, if_true, List.mem_cons]
+      rcases List.mem_cons.mp hf with rfl | h
+      · exact Or.inr ⟨hx, Or.inl rfl⟩
+      · exact Or.inl (Or.inr h)
+    · have : (x.fabIdx == i) = false := by simp [hx]
+      simp only [this, Bool.false_eq_true, if_false, List.mem_cons]
+      rcases List.mem_cons.mp hf with rfl | h
+      · exact Or.inl (Or.inl rfl)
+      · rcases ih f h with h | ⟨h1, h2⟩
+        · exact Or.inl (Or.inr h)
+        · exact Or.inr ⟨h1, Or.inr h2⟩
+
+/-- The specification has no deny rule: what was granted stays granted after an entry is added. -/
+theorem granted_after_acl_add {fabrics fabrics' : List Fabric} {fab n : Nat} {e : Entry}
+    (req : AccessReq) (hwf : WF fabrics) (h : fabricsAclAdd fabrics fab e = some (fabrics', n))
+    (hg : Granted fabrics req) : Granted fabrics' req := by
+  unfold fabricsAclAdd at h
+  cases hget : fabricsGet fabrics fab with
+  | none => simp [hget] at h
+  | some f0 =>
+    simp only [hget] at h
+    cases ha : f0.aclAdd e with
+    | none => simp [ha] at h
+    | some r =>
+      obtain ⟨f', i⟩ := r
+      simp only [ha] at h
+      injection h with h; injection h with h1 h2
+      subst h1
+      obtain ⟨a1, a2, a3⟩ := aclAdd_some ha
+      obtain ⟨hf0, hi0⟩ := fabricsGet_some_mem hget
+      rcases hg with hp | ⟨f, hf, hi, hz, hgr⟩
+      · exact Or.inl hp
+      · right
+        rcases fabricsUpdate_keeps fabrics fab (fun _ => f') f hf with hk | ⟨hfi, hk⟩
+        · exact ⟨f, hk, hi, hz, hgr⟩
+        · have hff : f = f0 := nodup_idx_unique hwf.distinct hf hf0 (hfi.trans hi0.symm)
+          subst hff
+          refine ⟨f', hk, a1.trans hi, hz, ?_⟩
+          rcases hgr with ⟨e', he', hge⟩ | hax
+          · exact Or.inl ⟨e', by rw [a3]; exact List.mem_append_left _ he', hge⟩
+          · right
+            unfold AuxGrants at hax ⊢
+            rw [a2]; exact hax
+
+/-- **Adding an ACL entry never revokes access (model)**: the decision procedure of the code has no
+deny rule - for every well-formed configuration and every read / write request, a request that was
+allowed is still allowed after `acl_add` of any (canonical) entry to any fabric. -/
+theorem acl_add_never_revokes {fabrics fabrics' : List Fabric} {fab n : Nat} {e : Entry}
+    (req : AccessReq) (hwf : WF fabrics) (hc : CanonicalPrivs fabrics)
+    (hp : ∃ p : Priv, e.privilege = p.bits) (hop : ReadOrWrite req)
+    (h : fabricsAclAdd fabrics fab e = some (fabrics', n))
+    (ha : allow fabrics req = true) : allow fabrics' req = true :=
+  (allow_iff_granted fabrics' req (wf_fabricsAclAdd hwf h) (canonical_fabricsAclAdd hc hp h) hop).mpr
+    (granted_after_acl_add req hwf h ((allow_iff_granted fabrics req hwf hc hop).mp ha))
+
 theorem groupsAddUpd_map {gs gs' : List GroupMapping} {ep gid : Nat}
     (h : groupsAddUpd gs ep gid = some gs') : gs'.map (·.groupId) = gs.map (·.groupId) := by
   induction gs generalizing gs' with
